@@ -1,6 +1,7 @@
 package rules
 
 import (
+	"strconv"
 	"fmt"
 	"go/token"
 	"go/types"
@@ -586,6 +587,19 @@ func runDecBounds(c *core.Ctx) {
 				if b, ok := loopIndexBound(idx); ok && contains(nf, b) {
 					c.OK(nil, fname(c, fn), construct, pos, "index is a loop counter running while < "+b)
 					return
+				}
+				// a counter that runs while < a constant K: in bounds of an array with at least K
+				// elements, and of a slice every way to which has established len ≥ K
+				if b, ok := loopIndexBound(idx); ok && strings.HasPrefix(b, "const:") {
+					if k, err := strconv.ParseInt(strings.TrimPrefix(b, "const:"), 10, 64); err == nil && k >= 0 {
+						if arr, isArr := t.(*types.Array); isArr && k <= arr.Len() {
+							c.OK(nil, fname(c, fn), construct, pos, fmt.Sprintf("index is a loop counter running while < %d, the array has %d elements", k, arr.Len()))
+							return
+						}
+						if inLen(k, fmt.Sprintf("loop counter running while < %d", k)) {
+							return
+						}
+					}
 				}
 				// a fixed-size array indexed by a counter that runs while < some other length:
 				// in bounds if that length is known to be at most the array's size here
